@@ -9,8 +9,10 @@ import (
 	"fmt"
 	"net/http"
 	"os"
+	"math/rand"
 	"runtime"
 	"strings"
+	"sync"
 	"time"
 
 	"github.com/ipfs/go-cid"
@@ -33,6 +35,8 @@ type Scenario struct {
 	Cancels   int   `json:"cancels"`   // how many of them are cancelled at random points
 	Closers   int   `json:"closers"`   // concurrent Close calls at a random point (0 = close only at the end)
 	Separate  bool  `json:"separate"`  // explicit syncs go to the last publisher, which is never announced
+	Faults    int   `json:"faults"`    // block requests answered with status 500 (seeded choice), failed heads are announced again
+	XCancel   bool  `json:"xcancel"`   // explicit syncs run under a context that is cancelled at a random point
 	Seed      int64 `json:"seed"`
 }
 
@@ -57,6 +61,10 @@ type run struct {
 	lst       []*listener
 	closed    bool
 	announced []int // last announced head per publisher
+	fmu       sync.Mutex
+	failed    map[[2]int]bool // (publisher, head) whose announce-triggered sync failed and that was not announced again yet
+	faultsLeft int
+	frng      *rand.Rand
 }
 
 func (r *run) pnum(id peer.ID) int {
@@ -80,7 +88,8 @@ func (r *run) cnum(p int, c cid.Cid) int {
 
 // Execute runs one scenario and returns the trace plus a divergence (hang etc.) if the run itself failed.
 func Execute(sc Scenario, pubs []*chain.Pub) (log []gate.Event, key, detail string) {
-	r := &run{sc: sc, s: gate.New(sc.Seed), pubs: pubs, dst: lsys.NewStore(), announced: make([]int, len(pubs))}
+	r := &run{sc: sc, s: gate.New(sc.Seed), pubs: pubs, dst: lsys.NewStore(), announced: make([]int, len(pubs)),
+		failed: map[[2]int]bool{}, faultsLeft: sc.Faults, frng: rand.New(rand.NewSource(sc.Seed ^ 0x5eed))}
 	s := r.s
 	passthrough := false
 	dagsync.VerifYield = func(point string, pid peer.ID, c cid.Cid) {
@@ -88,12 +97,41 @@ func Execute(sc Scenario, pubs []*chain.Pub) (log []gate.Event, key, detail stri
 			return
 		}
 		p := r.pnum(pid)
+		if point == "g.failed" {
+			r.fmu.Lock()
+			r.failed[[2]int{p, r.cnum(p, c)}] = true
+			r.fmu.Unlock()
+		}
 		s.Yield(point, p, r.cnum(p, c))
 	}
 	defer func() { dagsync.VerifYield = nil }()
 	for _, p := range pubs {
 		p.Reset(0)
+		p.Intercept = nil
+		if sc.Faults > 0 {
+			// a seeded choice of block requests is answered with status 500
+			p.Intercept = func(w http.ResponseWriter, req *http.Request, seq int) bool {
+				if strings.HasSuffix(req.URL.Path, "/head") {
+					return false
+				}
+				r.fmu.Lock()
+				fail := r.faultsLeft > 0 && r.frng.Intn(3) == 0
+				if fail {
+					r.faultsLeft--
+				}
+				r.fmu.Unlock()
+				if fail {
+					http.Error(w, "injected", http.StatusInternalServerError)
+				}
+				return fail
+			}
+		}
 	}
+	defer func() {
+		for _, p := range pubs {
+			p.Intercept = nil
+		}
+	}()
 	if sc.Separate {
 		last := pubs[len(pubs)-1]
 		last.Pub.SetRoot(last.Chain.Cids[sc.Ads])
@@ -126,9 +164,20 @@ func Execute(sc Scenario, pubs []*chain.Pub) (log []gate.Event, key, detail stri
 		expLeft[i] = sc.Explicit
 	}
 	regLeft, cancelLeft, closeLeft := sc.Listeners, sc.Cancels, sc.Closers
+	var xcancels []context.CancelFunc // contexts of explicit syncs not cancelled yet
 	available := func() []envAction {
 		todo = todo[:0]
 		if r.closed {
+			return todo
+		}
+		if sc.Ads > 10 && regLeft > 0 { // long runs: the stalled listener is registered before anything is announced
+			inflight := false
+			for _, l := range r.lst {
+				inflight = inflight || !l.ready
+			}
+			if !inflight {
+				todo = append(todo, envAction{"reg", 0, 0})
+			}
 			return todo
 		}
 		for p := 0; p < sc.Pubs; p++ {
@@ -141,6 +190,11 @@ func Execute(sc Scenario, pubs []*chain.Pub) (log []gate.Event, key, detail stri
 			if nextAd[p] < sc.Ads {
 				todo = append(todo, envAction{"ann", p + 1, nextAd[p] + 1})
 			}
+			r.fmu.Lock()
+			if nextAd[p] > 0 && r.failed[[2]int{p + 1, nextAd[p]}] {
+				todo = append(todo, envAction{"ann", p + 1, nextAd[p]}) // announce the failed head again
+			}
+			r.fmu.Unlock()
 			if expLeft[p] > 0 && nextAd[p] > 0 && !sc.Separate {
 				todo = append(todo, envAction{"explicit", p + 1, 0})
 			}
@@ -166,26 +220,36 @@ func Execute(sc Scenario, pubs []*chain.Pub) (log []gate.Event, key, detail stri
 		if closeLeft > 0 {
 			todo = append(todo, envAction{"close", 0, 0})
 		}
+		if len(xcancels) > 0 {
+			todo = append(todo, envAction{"xcancel", 0, 0})
+		}
 		return todo
 	}
 	ctx := context.Background()
-	for step := 0; step < 4000; step++ {
+	for step := 0; step < 4000+80*sc.Ads*sc.Pubs; step++ {
 		parked := s.ParkedIDs()
 		env := available()
 		if len(parked) == 0 && len(env) == 0 {
 			break
 		}
 		// favour releases 3:1 so that syncs make progress between announcements
-		pick := s.Rng.Intn(3*len(parked) + len(env))
-		if pick < 3*len(parked) {
-			s.Release(parked[pick/3])
+		w := 3
+		if sc.Ads > 10 { // long runs: mostly one sync after the other, so that the notifications pile up
+			w = 40
+		}
+		pick := s.Rng.Intn(w*len(parked) + len(env))
+		if pick < w*len(parked) {
+			s.Release(parked[pick/w])
 		} else {
-			a := env[pick-3*len(parked)]
+			a := env[pick-w*len(parked)]
 			switch a.kind {
 			case "ann":
 				p := pubs[a.p-1]
 				nextAd[a.p-1] = a.k
 				r.announced[a.p-1] = a.k
+				r.fmu.Lock()
+				delete(r.failed, [2]int{a.p, a.k})
+				r.fmu.Unlock()
 				p.Pub.SetRoot(p.Chain.Cids[a.k])
 				s.Record(gate.Event{Ev: "env.announce", P: a.p, C: a.k})
 				c := p.Chain.Cids[a.k]
@@ -197,8 +261,14 @@ func Execute(sc Scenario, pubs []*chain.Pub) (log []gate.Event, key, detail stri
 				expLeft[a.p-1]--
 				p := pubs[a.p-1]
 				s.Record(gate.Event{Ev: "env.explicit", P: a.p})
+				xctx := ctx
+				if sc.XCancel {
+					var cf context.CancelFunc
+					xctx, cf = context.WithCancel(ctx)
+					xcancels = append(xcancels, cf)
+				}
 				s.Go("explicit", func() {
-					c, err := r.sub.SyncAdChain(ctx, p.AddrInfo())
+					c, err := r.sub.SyncAdChain(xctx, p.AddrInfo())
 					s.RecordG(gate.Event{Ev: "env.explicit.ret", P: a.p, C: r.cnum(a.p, c), Err: err != nil})
 				})
 			case "reg":
@@ -224,6 +294,11 @@ func Execute(sc Scenario, pubs []*chain.Pub) (log []gate.Event, key, detail stri
 					l.cancelling = false
 					s.RecordG(gate.Event{Ev: "env.cancel.ret", N: a.k})
 				})
+			case "xcancel":
+				i := s.Rng.Intn(len(xcancels))
+				xcancels[i]()
+				xcancels = append(xcancels[:i], xcancels[i+1:]...)
+				s.Record(gate.Event{Ev: "env.xcancel"})
 			case "close":
 				n := closeLeft
 				closeLeft = 0
@@ -384,7 +459,8 @@ func Run(args []string) *rep.Report {
 	procs := fs.Int("procs", runtime.NumCPU(), "worker processes")
 	count := fs.Int("count", 100, "scenarios in total")
 	seed := fs.Int64("seed", 1, "base seed")
-	family := fs.String("family", "announce", "announce | mixed | listeners | close")
+	family := fs.String("family", "announce", "announce | mixed | listeners | close | faults | stall")
+	stallAds := fs.Int("stall-ads", 90, "advertisements of the long chain of family stall")
 	fs.Parse(args)
 	if *shard == "" {
 		return rep.RunSharded("c08", args, *procs)
@@ -405,6 +481,17 @@ func Run(args []string) *rep.Report {
 		}
 		pubs = append(pubs, p)
 	}
+	var long *chain.Pub
+	if *family == "stall" {
+		ch, err := chain.Build("ads", *stallAds, "c14-long")
+		if err == nil {
+			long, err = chain.NewPub(ch, "c14-long-pub", true)
+		}
+		if err != nil {
+			r.SetExtra("read_error", err.Error())
+			return r
+		}
+	}
 	f, err := os.Create(fmt.Sprintf("%s.%d", *out, si))
 	if err != nil {
 		r.SetExtra("read_error", err.Error())
@@ -418,6 +505,12 @@ func Run(args []string) *rep.Report {
 		switch *family {
 		case "mixed":
 			sc.Explicit = 1
+			sc.XCancel = i%4 == 3
+		case "faults":
+			sc.Faults = 1 + i%3
+			sc.Listeners = i % 2
+		case "stall":
+			sc.Pubs, sc.Ads, sc.Listeners = 1, len(long.Chain.Cids)-1, 1
 		case "listeners":
 			sc.Listeners, sc.Cancels = 2, i%2
 		case "close":
@@ -425,10 +518,14 @@ func Run(args []string) *rep.Report {
 			sc.Explicit, sc.Separate = 1+(i/2)%2, true
 			sc.Pubs = 2 + i%2
 		}
-		if i%5 == 4 && !sc.Separate {
+		if i%5 == 4 && !sc.Separate && *family != "stall" {
 			sc.Pubs = 3
 		}
-		log, key, detail := Execute(sc, pubs[:sc.Pubs])
+		use := pubs[:sc.Pubs]
+		if *family == "stall" {
+			use = []*chain.Pub{long}
+		}
+		log, key, detail := Execute(sc, use)
 		r.Eval(true)
 		if i%37 == 0 {
 			r.Sample(map[string]interface{}{"scenario": sc, "first_events": log[:min(len(log), 40)]})
